@@ -530,7 +530,8 @@ def check(prop_id: str, tier: str, verif_seed: int, jobs_n: int, max_runs: Optio
     if harness_errors:
         for e in harness_errors[:5]:
             print("HARNESS-ERROR " + e.strip().replace("\n", "\n    "))
-        return 2
+        if exit_code != 1:
+            return 2  # a violation that was also found (and printed above) is the more useful verdict
     print(
         f"{prop_id} {tier}: {evaluations} runs ({n_cases} enumerated), "
         f"{len(signatures)} distinct non-trivial, {len(unknown_groups)} violation groups, "
